@@ -329,7 +329,7 @@ def run(env, rep):
     if wants(rep, "C02.R5"):
         C18.run(env, PrefixReport(rep, "C18.", "C02.R5.", only=("C18.R1",)))
     if wants(rep, "C02.R6"):
-        C01.run(env, PrefixReport(rep, "C01.", "C02.R6.", only=("C01.R1", "C01.R2")))
+        C01.run(env, PrefixReport(rep, "C01.", "C02.R6.", only=("C01.R1", "C01.R2", "C01.R3")))
     from . import C07
     if wants(rep, "C02.R7"):
         C07.run(env, PrefixReport(rep, "C07.", "C02.R7.", only=("C07.R3", "C07.R6")))
